@@ -126,6 +126,17 @@ def main():
 
 def finish(meta, sdir, prop, k):
     dest = os.path.join(ROOT, "seeded", "%s-%s" % (prop, k))
+    old = os.path.join(dest, "meta.json")
+    if os.path.exists(old):
+        try:
+            oj = json.load(open(old))
+            for keep in ("history", "confirm_note"):
+                if keep in oj and keep not in meta:
+                    meta[keep] = oj[keep]
+            if oj.get("confirm_note"):
+                meta["confirmed"] = meta.get("confirmed") or oj.get("confirmed")
+        except Exception:
+            pass
     if os.path.isdir(dest):
         shutil.rmtree(dest)
     shutil.copytree(sdir, dest)
